@@ -51,7 +51,7 @@ def case_strategy(draw):
         if adapter in ("stream", "jsonfile"):
             recs.append({"v": v, "second": second, "full": True})
         else:
-            recs.append({"v": {k: v[k] for k in ("s", "s2", "opt", "n", "m", "f", "b", "size")}, "second": second,
+            recs.append({"v": {k: v[k] for k in ("s", "s2", "opt", "n", "m", "f", "b", "size", "src", "cls")}, "second": second,
                          "full": False})
     expr = draw(selgen.expressions(3))
     form = draw(st.sampled_from(["text", "interpreted", "compiled"]))
@@ -99,11 +99,13 @@ def check(case, ctx):
     for r in case["recs"]:
         v = r["v"]
         if r["second"]:
-            records.append(d2(v["s"], v["n"], v["s2"], _generated=selgen.GEN))
+            records.append(d2(v["s"], v["n"], v["s2"], _generated=selgen.GEN, _source=v.get("src"),
+                              _classification=v.get("cls")))
         elif r.get("full"):
             records.append(selgen.build_record(v))
         else:
-            records.append(d1(_generated=selgen.GEN, **v))
+            records.append(d1(_generated=selgen.GEN, _source=v.get("src"), _classification=v.get("cls"),
+                              **{k: x for k, x in v.items() if k not in ("src", "cls")}))
     adapter, src, form = case["adapter"], case["expr"]["src"], case["form"]
     ctx.cls("adapter:" + adapter, "form:" + form)
     tmp = ctx.fresh_dir()
